@@ -506,15 +506,18 @@ def annotate(nf, directives, kind):
                 raise ExtractError("anchor lost: rewrite %r matched %d times" % (old, len(hits)))
             for j in hits:
                 ops.replace(j, j + len(old), new, cls)
-        elif name == 'rewritere':
+        elif name in ('rewritere', 'rewritereall'):
             parts = [x.strip() for x in arg.split('@@')]
             if len(parts) != 3:
                 raise ExtractError("rewritere needs CLASS @@ REGEX @@ NEW")
             cls, rx, new = parts
             hits = [mm for mm in re.finditer(rx, nf, flags=re.S) if m[mm.start()] == 'c']
-            if len(hits) != 1:
+            if name == 'rewritere' and len(hits) != 1:
                 raise ExtractError("anchor lost: rewritere %r matched %d times" % (rx, len(hits)))
-            ops.replace(hits[0].start(), hits[0].end(), new, cls)
+            if not hits:
+                raise ExtractError("anchor lost: rewritereall %r matched 0 times" % rx)
+            for h in hits:
+                ops.replace(h.start(), h.end(), h.expand(new), cls)
         elif name == 'execconst':
             mm = re.compile(r'\s*(const|static)\b').match(nf)
             if not mm:
@@ -532,6 +535,26 @@ def annotate(nf, directives, kind):
         elif name == 'rename':
             mm = re.compile(r'fn\s+([A-Za-z_][A-Za-z0-9_]*)').search(nf, fnpos)
             ops.replace(mm.start(1), mm.end(1), arg.strip(), 'rename')
+        elif name == 'ascribe':
+            # E10-type-ascription: `let mut x = ..` -> `let mut x: T = ..` (semantically neutral; needed where a ghost
+            # annotation mentions the variable before rustc has inferred its type)
+            lit, ty = [x.strip() for x in arg.split('|', 1)]
+            if not re.match(r'^: [A-Za-z0-9_<>, \[\];:()&]+$', ty):
+                raise ExtractError("ascribe: not a type ascription: %r" % ty)
+            cands = []
+            st = ob + 1 if kind == 'fn' else 0
+            while True:
+                j = rl.code_find(nf, m, lit, st)
+                if j < 0:
+                    break
+                nxt = nf[j + len(lit)] if j + len(lit) < len(nf) else ' '
+                if not (nxt.isalnum() or nxt == '_'):
+                    cands.append(j)
+                st = j + 1
+            if len(cands) != 1:
+                raise ExtractError("anchor lost: ascribe %r (%d matches)" % (lit, len(cands)))
+            j = cands[0]
+            ops.insert(j + len(lit), ty, 'E10-type-ascription')
         elif name == 'attr':
             if not re.match(r'^#\[verifier::(loop_isolation\(false\)|allow_complex_invariants|spinoff_prover|rlimit\(\d+\))\]$', arg.strip()):
                 raise ExtractError("attr not allowed: %s" % arg)
